@@ -282,6 +282,24 @@ def t2(run, thorough):
     run.need(len(rec) == 1, '%s: expected one EnumExpr(...) for an anonymous enum' % F)
     run.ob('T2/anonymous-enum-uses-the-model', F, "cname with '$' -> build_baseinttype", rec[0][2] == ('sizeof', ('btype', 'B')), m.where(fn), repr(rec[0][2]))
 
+    # the enumerator list of the row keeps the order of declaration (ffi.string() answers with the first name that has the value,
+    # and the runtime builds its value->name table from this list), and every enumerator gets a constant row with its own value
+    for tip in (True, False):
+        rec, glob = [], []
+        ev = sp.Evaluator({'EnumExpr': lambda a, k, e, f: rec.append(a) or sp.Opq('EnumExpr'),
+                           'GlobalExpr': lambda a, k, e, f: glob.append((tuple(a[:1]), k.get('check_value'))) or sp.Opq('GlobalExpr'),
+                           'tp.build_baseinttype': lambda a, k, e, f: ('btype', 'B'), 'self.ffi.sizeof': lambda a, k, e, f: 4,
+                           'self.ffi.cast': lambda a, k, e, f: -1, 'int': lambda a, k, e, f: a[0] if len(a) == 1 else sp.Opq('int(?)')})
+        names, vals = ('ZETA', 'ALPHA', 'MID', 'BETA'), (1, 1, 0, 0)
+        ev.run(fn, {'self.target_is_python': tip, 'cname': 'enum foo', 'tp.enumerators': names, 'tp.enumvalues': vals})
+        run.need(len(rec) == 1 and len(rec[0]) == 5, '%s: expected one EnumExpr(...)' % F)
+        allenums = rec[0][4]
+        if not isinstance(allenums, str):
+            raise AnalysisError('%s: the enumerator list handed to EnumExpr is not understood (%r)' % (F, allenums))
+        run.ob('T2/enumerator-names-kept-in-declaration-order', F, 'allenums for %s (target_is_python=%s)' % (','.join(names), tip), allenums == ','.join(names), m.where(fn),
+               'the row lists them as %r: with duplicates %s=%s the first *listed* name is what ffi.string() returns' % (allenums, names[0], names[1]))
+        run.ob('T2/every-enumerator-gets-a-constant-row-with-its-value', F, 'GlobalExpr rows (target_is_python=%s)' % tip, glob == [((n_,), v_) for n_, v_ in zip(names, vals)],
+               m.where(fn), 'rows: %r' % (glob,))
     # witness on the generated probes
     gtext = gen.generated()['p_enums']
     mm = re.search(r'_cffi_enums\[\]\s*=\s*\{(.*?)\n\};', gtext, re.S)
